@@ -133,6 +133,26 @@ STRENGTHENED = {
     'C20-w5-c20-m1': 'devices selected by port path (list / sysfs string) and by serial, under backend errors',
     'C20-w5-c20-m2': 'platform.system() reporting Windows / Darwin / Linux',
     'C20-w5-c20-m3': 'two devices with the same serial number, one transport each, used in turn; clause RaisesOnlyForACause',
+    # ---- round 6 (re-entrancy, iteration protocols, time arithmetic, resource hygiene on error paths, interpreter-level corners)
+    'C01-w6-c01-m3': 'a write that did reach the device although the transport reported a timeout for it, then further commands',
+    'C02-w6-c02-m3': 'authenticated handshakes whose public key text is not ASCII (str / bytes / bytearray)',
+    'C03-w6-c03-m2': 'unknown command words in headers that announce a payload which is not there',
+    'C03-w6-c03-m3': 'a payload whose byte sum exceeds 2^32 (17 MiB of 0xFF)',
+    'C04-w6-c04-m1': 'destinations of 4080 .. 70000 bytes',
+    'C04-w6-c04-m3': 'reported by C10: AdbSyncOp rows in which the device closes the stream in mid-reply',
+    'C05-w6-c05-m1': 'reported by C13 (available sampled during connect attempts; BaseException out of connect)',
+    'C05-w6-c05-m2': 'signers without a public key; SuccessWhenAccepted judged on every code run whose script says the device will accept',
+    'C05-w6-c05-m3': 'stray packets before the CNXN that follows the public key, under every kind of auth timeout',
+    'C06-w6-c06-m1': 'reported by C07: a push callback that runs stat() on the same device',
+    'C06-w6-c06-m2': 'the virtual clock now also answers monotonic() / perf_counter() / *_ns()',
+    'C07-w6-c07-m1': 'push callbacks that run a shell command / stat / pull on the same device',
+    'C07-w6-c07-m3': 'a working directory that holds directories named like the pushed files',
+    'C08-w6-c08-m1': 'ambient variation: a transport that keeps transfer boundaries (USB-like: an undersized read overflows)',
+    'C08-w6-c08-m3': 'a pull callback that pulls another file from the same device; lock requests of the holder itself are recorded',
+    'C09-w6-c09-m1': 'a directory of 1500 entries (and a pull of 1500 records)',
+    'C09-w6-c09-m2': 'the same requests from a child interpreter whose filesystem encoding is ASCII',
+    'C09-w6-c09-m3': 'a listing that outlasts read_timeout_s as a whole while a frozen stream is released in the middle of it',
+    'C10-w6-c10-m2': 'a rejected file inside a directory push',
     'C03-c03-m1': 'corruption sweep also over a payload whose genuine checksum is 0 (all zero bytes) and over 0xFF bytes',
 }
 
